@@ -70,7 +70,7 @@ def sizes(cls: str, tier: str) -> List[Tuple[int, ...]]:
             continue
         if cls in RECTANGULAR_DEFECT and s[0] != s[1]:
             continue
-        if cls == 'Color666ToricCode' and s[0] > 3:
+        if cls == 'Color666ToricCode' and s[0] > 2:      # (3,3): pair queries exceed 240 s (n=162)
             continue
         if cls == 'Color488Code' and s[0] > 4:
             continue
